@@ -325,6 +325,14 @@ def triage(ctx: Ctx, w: Write, kind: str, why: str, schema: Schema):
                 pos = ctx.params.index(pname)
                 if all(len(c.args) > pos and isinstance(c.args[pos], ast.Name) and c.args[pos].id == "self" for _, _, _, _, c in sites):
                     return True, f"{short} is called only from constructors, which pass the instance under construction as `{pname}`"
+    # 7c. a private helper that fills in an object its callers have just allocated: every call site passes a fresh
+    #     object at that position (recursion on itself allowed)
+    if short.startswith("_") and not short.startswith("__") and kind == "param" and why in ctx.params:
+        pos = ctx.params.index(why) - (1 if (ctx.is_method and not ctx.is_static) else 0)
+        if pos >= 0:
+            ok_, reason_ = _arg_fresh_at_sites(p, short, pos, allow_recursive_in=qn)
+            if ok_ and reason_ != "no call sites":
+                return True, f"fills in the object its callers allocate for it: {reason_}"
     # 8a. a container that lives on the CLASS (mutable display in the class body, never re-bound per instance in
     #     __init__) and is changed in place through self: one object shared by every instance and thread
     if ctx.ci is not None and kind == "self":
